@@ -582,6 +582,12 @@ fn line_space(thorough: bool) -> Vec<Line> {
         }
         v.push(Line::Method { range: Some((1, 2)), ty: "void", cls: Some("a.B"), name: "n", args: long_args, orig: Orig::SE(3, 4), obf: "m" });
         v.push(Line::SourceFile(leak(&"S".repeat(2000))));
+        // argument COUNTS around 255/256 (and 1000), short argument names
+        for n in [254usize, 255, 256, 257, 1000] {
+            let a: S = leak(&vec!["int"; n].join(","));
+            v.push(Line::Method { range: Some((1, 2)), ty: "void", cls: None, name: "n", args: a, orig: Orig::SE(3, 4), obf: "m" });
+            v.push(Line::Method { range: None, ty: "void", cls: Some("a.B"), name: "n", args: a, orig: Orig::None, obf: "m" });
+        }
     }
     for r in &ranges {
         for o in &origs {
@@ -601,7 +607,46 @@ fn line_space(thorough: bool) -> Vec<Line> {
     v
 }
 
+/// a well-formed line after N consecutive malformed lines is still returned with exactly its parts
+fn check_after_error_run(line: &Line, n: usize, acc: &mut Acc) {
+    let mut buf: Vec<u8> = Vec::with_capacity(n * 9 + 200);
+    for _ in 0..n {
+        buf.extend_from_slice(b"garbage\n");
+    }
+    buf.extend_from_slice(&line.printed());
+    buf.extend_from_slice(b"\n");
+    buf.extend_from_slice(FOLLOW);
+    acc.states += 1;
+    acc.transitions += 1;
+    acc.observations += 1;
+    let r = guarded(|| {
+        let mut it = ProguardMapping::new(&buf).iter();
+        for k in 0..n {
+            match it.next() {
+                Some(Err(_)) => {}
+                other => return Err(format!("item {} of the error run is {:?}", k, other.map(|x| x.is_ok()))),
+            }
+        }
+        match it.next() {
+            Some(Ok(r)) => matches(&r, line)?,
+            other => return Err(format!("after {} malformed lines the well-formed line came back as {:?}", n, other)),
+        }
+        let rest: Vec<_> = it.collect();
+        if follow_intact(&rest) {
+            Ok(())
+        } else {
+            Err(format!("the lines after it were disturbed ({} items)", rest.len()))
+        }
+    });
+    match r {
+        Ok(Ok(())) => {}
+        Ok(Err(d)) => acc.violation("wellformed:after-error-run", n, || (format!("{} malformed lines, then {:?}: {}", n, esc(&line.printed()), d), json!({"kind":"c05-after-run","line":line.to_json(),"n":n,"observed":d}))),
+        Err(p) => acc.violation(format!("panic:{}", panic_site(&p)), n, || (p.clone(), json!({"kind":"c05-after-run","line":line.to_json(),"n":n}))),
+    }
+}
+
 enum Work {
+    AfterRun(usize),
     Lines(usize, usize),
     Tokens(Vec<usize>, usize),
     Corpus(usize),
@@ -620,6 +665,9 @@ pub fn run(tier: Tier) -> i32 {
         work.push(Work::Lines(i, (i + chunk).min(lines.len())));
         i += chunk;
     }
+    for n in [99usize, 100, 101, 999, 1000, 1001, 9999, 10000, 10001, 65536, 100001] {
+        work.push(Work::AfterRun(n));
+    }
     work.push(Work::Tokens(vec![], 2));
     for a in 0..C_TOKENS.len() {
         for b in 0..C_TOKENS.len() {
@@ -633,6 +681,11 @@ pub fn run(tier: Tier) -> i32 {
     }
     let nlines = lines.len();
     let mut acc = par_run(&work, &budget, |w, acc, budget| match w {
+        Work::AfterRun(n) => {
+            for l in [class("a.B", "c"), Line::Field { ty: "int", orig: "f", obf: "g" }, method(Some((1, 2)), Some("a.B"), "n", "int", Orig::SE(3, 4), "m"), Line::Header { key: "compiler", value: Some("R8") }, Line::SourceFile("S.kt")] {
+                check_after_error_run(&l, *n, acc);
+            }
+        }
         Work::Lines(a, b) => {
             for (k, l) in lines[*a..*b].iter().enumerate() {
                 if budget.exceeded() {
@@ -705,7 +758,7 @@ pub fn run(tier: Tier) -> i32 {
         prop: "C05",
         tier,
         level: "model_checking",
-        rule: format!("(a) every record AST of the line space ({} lines: identifiers x numbers x every combination of the optional groups) printed and parsed alone with terminators none/LF/CRLF/LFLF and inside a file (LF, CRLF) - the record must have exactly the AST's parts; (b) every documented malformation of those lines (all non-method lines, every 7th method line) must be an error carrying the offending line, alone and inside a file without disturbing the neighbours; (c) every string of <= {} tokens over the 12-token alphabet against an independent recogniser of the documented grammar (in grammar => Ok with the recogniser's captures; documented malformation => Err; otherwise no claim); (d) every line of the corpus parsed alone vs in its file. states = lines / malformed lines / token strings; distinct = distinct printed lines or recognised records", nlines, tok_depth),
+        rule: format!("(a) every record AST of the line space ({} lines: identifiers x numbers x every combination of the optional groups) printed and parsed alone with terminators none/LF/CRLF/LFLF and inside a file (LF, CRLF) - the record must have exactly the AST's parts; (b) every documented malformation of those lines (all non-method lines, every 7th method line) must be an error carrying the offending line, alone and inside a file without disturbing the neighbours; (c) every string of <= {} tokens over the 12-token alphabet against an independent recogniser of the documented grammar (in grammar => Ok with the recogniser's captures; documented malformation => Err; otherwise no claim); (d) every line of the corpus parsed alone vs in its file; (e) five kinds of well-formed line after 99..100001 consecutive malformed lines. states = lines / malformed lines / token strings; distinct = distinct printed lines or recognised records", nlines, tok_depth),
         bounds: json!({"line_space": nlines, "token_depth": tok_depth, "tokens": C_TOKENS, "identifiers": IDENTS, "numbers": NUMS}),
         assumptions: vec!["the recogniser's NAME is deliberately narrower than what the parser accepts (no leading digit, no ',', no leading/trailing/doubled '.'); outside it no claim is made".into()],
         trusted_base: vec!["rustc/std".into(), "AST printer pgmc/src/ast.rs".into(), "independent recogniser in pgmc/src/props/c05.rs (no code shared with src/mapping.rs)".into()],
@@ -719,6 +772,7 @@ pub fn recheck(case: &Value) -> Vec<String> {
         "c05-line" => check_line(&Line::from_json(&case["line"]), &mut acc),
         "c05-malformed" => check_malformed(&Line::from_json(&case["from"]), &mut acc),
         "c05-token" => check_token_string(case["text"].as_str().unwrap_or(""), &mut acc),
+        "c05-after-run" => check_after_error_run(&Line::from_json(&case["line"]), case["n"].as_u64().unwrap_or(0) as usize, &mut acc),
         "c05-corpus" => {
             // re-run the file
             if let Ok(bytes) = std::fs::read(case["file"].as_str().unwrap_or("")) {
